@@ -77,6 +77,9 @@ func api(a *hx.Args, res *hx.Result) {
 		if err := json.Unmarshal(l, &sc); err != nil {
 			hx.Fatal("bad scenario: %v", err)
 		}
+		if sc.S.Call == "prove" {
+			continue // credential level: replayed by `nr witapi`
+		}
 		label := string(l)
 		res.Eval(label)
 		det := hx.M{"scenario": sc.S, "expected": sc.Expect}
